@@ -296,10 +296,47 @@ UNITS += [
          hints=[("before", "let trees", "    let ghost group = nodes@;")]),
 ]
 
+CPYF = "crates/core/src/commands/copy.rs"
+UNITS += [
+    Unit(name="copy_collect_nodes", file=CPYF, kind="block", within="pub(crate) fn copy<'a, R: IndexedFull, S: IndexedIds>(",
+         anchor="for node in tree.nodes {", block_end="@for_end",
+         block_sig="fn copy_collect_nodes(tree: &TreeC, data_ids: &mut VIdSet<DataIdC>, tree_ids: &mut VIdSet<TreeIdC>, index_dest: &VDestIndex)",
+         block_tail="",
+         functions=["commands::copy::copy (per-tree node loop: which blobs are collected for copying)"],
+         rewrites=[
+             Rw("for node in tree.nodes {", "for node in it: tree.nodes.iter() {", why="by-value iteration -> by reference; Verus for-loop syntax"),
+             Rw("NodeType::", "NodeTypeC::", count=None, why="NodeType -> stub enum"),
+             Rw("data_ids.extend(node.content.into_iter().flatten().filter(filter_data));", "vextend_missing_data(data_ids, &node.content, index_dest);", why="Extend + filter with the closure filter_data (= not in the destination index) -> stub"),
+             Rw("tree_ids.extend(node.subtree.into_iter().filter(filter_tree));", "vextend_missing_tree(tree_ids, &node.subtree, index_dest);", why="Extend + filter with the closure filter_tree (= not in the destination index) -> stub"),
+         ],
+         contract="""
+    ensures
+        /*@nothing_dropped_from_the_copy_lists*/ (forall|k: DataIdC| old(data_ids).s@.contains(k) ==> final(data_ids).s@.contains(k)) && (forall|k: TreeIdC| old(tree_ids).s@.contains(k) ==> final(tree_ids).s@.contains(k)),
+        // every chunk of every file and every sub-directory that the destination does not have yet is put on the copy lists
+        /*@missing_file_chunks_are_collected*/ forall|i: int, j: int| 0 <= i < tree.nodes@.len() && tree.nodes@[i].node_type is File && 0 <= j < content_c(tree.nodes@[i].content).len()
+            && !index_dest.data().contains(#[trigger] content_c(tree.nodes@[i].content)[j]) ==> final(data_ids).s@.contains(content_c(tree.nodes@[i].content)[j]),
+        /*@missing_subtrees_are_collected*/ forall|i: int| 0 <= i < tree.nodes@.len() && (#[trigger] tree.nodes@[i]).node_type is Dir && tree.nodes@[i].subtree is Some
+            && !index_dest.trees().contains(tree.nodes@[i].subtree->0) ==> final(tree_ids).s@.contains(tree.nodes@[i].subtree->0),
+        // and nothing the destination already has is copied again
+        /*@present_blobs_are_not_copied_again*/ forall|k: DataIdC| final(data_ids).s@.contains(k) && !old(data_ids).s@.contains(k) ==> !index_dest.data().contains(k),
+""",
+         loops={1: """
+        invariant
+            forall|k: DataIdC| old(data_ids).s@.contains(k) ==> data_ids.s@.contains(k), forall|k: TreeIdC| old(tree_ids).s@.contains(k) ==> tree_ids.s@.contains(k),
+            forall|i: int, j: int| 0 <= i < it.index@ && tree.nodes@[i].node_type is File && 0 <= j < content_c(tree.nodes@[i].content).len()
+                && !index_dest.data().contains(#[trigger] content_c(tree.nodes@[i].content)[j]) ==> data_ids.s@.contains(content_c(tree.nodes@[i].content)[j]),
+            forall|i: int| 0 <= i < it.index@ && (#[trigger] tree.nodes@[i]).node_type is Dir && tree.nodes@[i].subtree is Some
+                && !index_dest.trees().contains(tree.nodes@[i].subtree->0) ==> tree_ids.s@.contains(tree.nodes@[i].subtree->0),
+            forall|k: DataIdC| data_ids.s@.contains(k) && !old(data_ids).s@.contains(k) ==> !index_dest.data().contains(k),
+"""},
+         hints=[("loop_start", "1", "        proof { assert(tree.nodes@[it.index@] == *node); }")],
+         ),
+]
+
 KANI = []
 META = {"not_covered": [
     "merge: Tree::from_backend of the inputs and the fill phase of the heap (iterator adapters), which conflicting entry wins beyond 'one of the group' (the caller's cmp closure), the recursion into sub-directories (stub), BinaryHeap semantics (assumed); the heap order, the merge loop and merge_nodes ARE units",
     "what the visitors answer for trees as a whole (pre_process_tree: unreadable trees replaced by empty ones) -- in modify_tree the visitor is a stub with arbitrary answers",
-    "copy: selection of the blobs to copy (closures, TreeStreamerOnce); the byte-exact copy itself is C02's BlobCopier units, the ordering C03's copy_tail",
+    "copy: TreeStreamerOnce (threads), the two filter closures (stubs: 'not in the destination index') and the lookup of the collected ids in the source index; the per-tree node loop IS a unit, the byte-exact copy is C02's BlobCopier units, the ordering C03's copy_tail",
     "'restores identically' / 'union of paths' as whole-command statements",
 ]}
